@@ -41,6 +41,14 @@ def main(argv):
     if script is None:
         print('no check for %s' % pid)
         return 2
+    if replay and pid != 'C10':
+        sys.path.insert(0, HERE)
+        import common
+        try:
+            return common.replay_generic(pid, replay)
+        except common.MachineryError as e:
+            print('MACHINERY FAILURE: %s' % e)
+            return 2
     cmd = [sys.executable, os.path.join(HERE, script), pid, tier]
     if replay:
         cmd += ['--replay', replay]
